@@ -44,6 +44,7 @@
 package main
 
 import (
+	"sync/atomic"
 	"encoding/json"
 	"flag"
 	"fmt"
@@ -160,6 +161,7 @@ func main() {
 	repeat := flag.Int("repeat", 1, "execute every round's program this many times")
 	flipsPerRound := flag.Int("flips-per-round", 10, "section 3: schedule flips per round")
 	paranoid := flag.Bool("paranoid", false, "section 1: additionally run the reduction-free search on every history")
+	stall := flag.Int("stall", 90, "seconds without progress (a finished round / a finished schedule flip) after which the run is reported as deadlocked")
 	flag.Parse()
 	if *rounds < 1 || *gor < 2 || *repeat < 1 || *flipsPerRound < 1 || flag.NArg() != 0 {
 		fmt.Fprintln(os.Stderr, "usage: conc -seed <n> -rounds <r> [-goroutines <g>] -out <file.json>")
@@ -172,6 +174,7 @@ func main() {
 			ChargesBySchedule: map[string]int{"A": 0, "B": 0}, SectionSeconds: map[string]float64{},
 			Findings: []finding{}, Samples: []map[string]interface{}{}}}
 
+	startWatchdog(*seed, *rounds, *outPath, *stall)
 	if err := selfTestCheckers(); err != nil {
 		fmt.Fprintln(os.Stderr, "internal error:", err)
 		os.Exit(2)
@@ -196,6 +199,8 @@ func main() {
 			continue
 		}
 		t0 := time.Now()
+		currentSection.Store(s.name)
+		beat()
 		if err := s.f(); err != nil {
 			fmt.Fprintf(os.Stderr, "internal error in section %s: %v\n", s.name, err)
 			os.Exit(2)
@@ -222,4 +227,53 @@ func main() {
 		os.Exit(1)
 	}
 	os.Exit(0)
+}
+
+// ---------------------------------------------------------------------------
+// progress watchdog: a deadlock (or livelock) of the code under test must end the run with a finding, not hang it
+// ---------------------------------------------------------------------------
+
+var heartbeat int64
+var currentSection atomic.Value // string
+
+// beat is called whenever a unit of work that involves the code under test has finished: a round of sections 1 and 2,
+// a schedule flip of section 3 (the flipper needs the write lock of every priced function object: if an execution holds
+// a read lock forever - e.g. because it takes the same read lock again while a writer waits - no flip ever finishes).
+func beat() { atomic.AddInt64(&heartbeat, 1) }
+
+func startWatchdog(seed int64, rounds int, outPath string, stall int) {
+	currentSection.Store("start")
+	go func() {
+		last, since := int64(-1), time.Now()
+		for {
+			time.Sleep(2 * time.Second)
+			h := atomic.LoadInt64(&heartbeat)
+			if h != last {
+				last, since = h, time.Now()
+				continue
+			}
+			if time.Since(since) < time.Duration(stall)*time.Second {
+				continue
+			}
+			buf := make([]byte, 1<<20)
+			n := runtime.Stack(buf, true)
+			sec, _ := currentSection.Load().(string)
+			what := fmt.Sprintf("no progress for %d s in section %s: the code under test is deadlocked or livelocked (no round / no schedule flip finishes); goroutine dump in the replay object", stall, sec)
+			rep := map[string]interface{}{
+				"seed": seed, "rounds": rounds, "race_detector": raceEnabled,
+				"findings": []finding{{Section: sec, What: what, Replay: map[string]interface{}{
+					"rerun":      fmt.Sprintf("bin/conc -seed %d -rounds %d", seed, rounds),
+					"goroutines": string(buf[:n]),
+				}}},
+			}
+			js, _ := json.MarshalIndent(rep, "", " ")
+			if outPath == "" {
+				os.Stdout.Write(js)
+			} else {
+				_ = ioutil.WriteFile(outPath, js, 0644)
+			}
+			fmt.Fprintln(os.Stderr, "conc:", what)
+			os.Exit(1)
+		}
+	}()
 }
